@@ -42,4 +42,17 @@ PROPS = {
                         "advance times are non-decreasing and below 2^62 ns"],
         "explanation": "wheel invariants proved over all op sequences; model replayed against the real TimerWheel",
     },
+    "C07": {
+        "props_files": ["Props/C07.v"],
+        "go_tests": ["TestVerifPolicy"],
+        "level": "proof",
+        "rule": "random insert / access / remove / cost-update / forced-climb sequences on the real TinyLfu for capacities 1..2000 "
+                "(tiny ones over-represented), costs skewed to 1, window capacity +-1 and the full capacity, sketch contents and "
+                "admission coin varied; non-trivial = >= 3 steps; distinct = sha1 of the recorded case",
+        "trusted_base": [KERNEL, EXTRACT, HARNESS, "hook H7 (controllable Fastrand, build tag verif)",
+                         "modelled, not verified: float32 hill-climber arithmetic (the raw int(amount) is an input of the model, recomputed by the harness; "
+                         "the float32 initial window / protected capacities are read from the constructor); intrusive lists as Coq lists; uint as Z mod 2^64"],
+        "assumptions": ["costs are in 1..capacity (C06 covers rejection above capacity)"],
+        "explanation": "structural invariant proved over all op sequences of the policy model; model replayed step by step against the real TinyLfu",
+    },
 }
